@@ -119,3 +119,17 @@ Theorem C13_leaf_judge_sound : forall rec, LeafModel.judge_leaf rec = 0 ->
     LeafModel.leaf_gen fn args = Some (Some r) /\ LeafModel.leaf_spec fn args r = true.
 Proof. exact LeafJudgeProofs.judge_leaf_sound. Qed.
 Print Assumptions C13_leaf_judge_sound.
+
+(* ---------- the judge accepts EXACTLY the records that satisfy its specification: besides soundness (above) also completeness,
+   i.e. a record of a correct answer is never rejected (JudgeComplete2.v) ---------- *)
+From Cmr Require JudgeComplete2.
+Theorem C13_judge_pivot_accepts_exactly_the_specification :
+    forall (rec : list Z) (q : Z) (m n : nat) (M : mat) (rs cs : list nat) (rc : Z)
+    (res : option (nat * nat * mat)) (viol : option (list nat * list nat)) (rc1 : Z)
+    (res1 : option (nat * nat * mat)) (viol1 : option (list nat * list nat)) 
+    (rest : list Z),
+    PivotProofs.pivot_input rec = Some (q, (m, n, M), rs, cs, rc, res, viol, rc1, res1, viol1, rest) ->
+    PivotModel.judge_pivot rec = 0%Z <->
+    JudgeComplete2.pivot_spec q m n M rs cs rc res viol rc1 res1 viol1.
+Proof. exact JudgeComplete2.judge_pivot_iff. Qed.
+Print Assumptions C13_judge_pivot_accepts_exactly_the_specification.
